@@ -735,35 +735,6 @@ fn sorted_rows(rows: &[Row]) -> Vec<String> {
 
 // ------------------------------------------------------------------ C05
 
-/// which known class (if any) does the unlisted request (vid, prop) belong to?
-fn c05_class(q: &IndexedQuery, vid: u64, prop: &str) -> Option<&'static str> {
-    let mut imported = false;
-    let mut count_tag = false;
-    walk_folds(&q.ir_query.root_component, &mut |_parent, fold| {
-        for t in &fold.imported_tags {
-            if let FieldRef::ContextField(cf) = t {
-                if vid_n(cf.vertex_id) == vid && cf.field_name.as_ref() == prop {
-                    imported = true;
-                }
-            }
-        }
-        for pf in &fold.post_filters {
-            if let Some(Argument::Tag(FieldRef::ContextField(cf))) = op_right(pf) {
-                if vid_n(cf.vertex_id) == vid && cf.field_name.as_ref() == prop {
-                    count_tag = true;
-                }
-            }
-        }
-    });
-    if imported {
-        Some("K-imported-tag-not-required")
-    } else if count_tag {
-        Some("K-count-filter-tag-not-required")
-    } else {
-        None
-    }
-}
-
 fn run_c05(seed: u64, n: usize, out: &mut Out) {
     let mut rng = Rng::new(seed);
     let schema = world::schema();
@@ -779,7 +750,9 @@ fn run_c05(seed: u64, n: usize, out: &mut Out) {
         lazy_zone(&c.indexed.ir_query.root_component, &mut lz_vids, &mut lz_eids);
 
         // ---- oracle: every requested (vid, property) is listed for that vid
-        let mut failed_classes: BTreeSet<Option<&'static str>> = BTreeSet::new();
+        // (F11 - imported tags / fold-count filter tags missing from the list - is repaired in /repo:
+        // every unlisted request is a violation)
+        let mut uncovered = false;
         let mut seen_req: BTreeSet<(u64, String)> = BTreeSet::new();
         for (vid, prop) in &st.requests {
             if !seen_req.insert((*vid, prop.clone())) || prop == "__typename" {
@@ -788,13 +761,10 @@ fn run_c05(seed: u64, n: usize, out: &mut Out) {
             let lists = st.required.get(vid).cloned().unwrap_or_default();
             let listed = !lists.is_empty() && lists.iter().all(|l| l.split(',').any(|x| x == prop));
             if !listed {
-                let class = c05_class(&c.indexed, *vid, prop);
-                if failed_classes.insert(class) {
+                if !uncovered {
+                    uncovered = true;
                     let detail = json!({"vid": vid, "property": prop, "required_properties": lists});
-                    match class {
-                        Some(k) => out.oracle_fail_class(k, "resolve_property was called for a property missing from required_properties()", input.clone(), detail),
-                        None => out.oracle_fail("resolve_property was called for a property missing from required_properties()", input.clone(), detail),
-                    }
+                    out.oracle_fail("resolve_property was called for a property missing from required_properties()", input.clone(), detail);
                 }
             }
         }
@@ -807,7 +777,7 @@ fn run_c05(seed: u64, n: usize, out: &mut Out) {
                 );
             }
         }
-        out.count(if failed_classes.is_empty() { "oracle:covered" } else { "oracle:uncovered" });
+        out.count(if !uncovered { "oracle:covered" } else { "oracle:uncovered" });
 
         // ---- tie
         let imp = match &o {
